@@ -50,6 +50,10 @@ func (m *mgen) neutral() {
 		m.add("", false, "<p>"+sb.String()+"</p>")
 	}
 	if m.r.Intn(4) == 0 {
+		// a client-side template: its content is inert, none of it is markup of the page
+		m.fr = append([]mfrag{{"", false, `<template><meta name="IE_RM_OFF" content="true"><meta property="og:title" content="{{title}}"><meta name="title" content="{{t}}"><div itemscope itemtype="http://schema.org/Article"><span itemprop="headline">{{headline}}</span><span itemprop="author">{{a}}</span><time itemprop="datePublished" datetime="{{d}}">x</time></div><span class="byline-name">{{b}}</span><span class="dateline">{{dl}}</span><a rel="author" href="/x">{{ra}}</a></template>`}}, m.fr...)
+	}
+	if m.r.Intn(4) == 0 {
 		// inline pictures / formulas with an element that happens to be called like a part of the document
 		m.add("", false, []string{`<svg width="1" height="1"><html></html></svg>`, `<math><html></html></math>`, `<svg><head><title>x</title></head></svg>`}[m.r.Intn(3)])
 	}
